@@ -353,6 +353,11 @@ add('C05','hunt-remainder-error-returned',ND,"		if err != nil { // pattern æ˜¯è¢
 add('C07','hunt-methods-shared-slice',ME,"	return slices.Clone(getMethodIndexEntity(n.getMethodIndex()).methods)","	return getMethodIndexEntity(n.getMethodIndex()).methods",'violation:C07.R9')
 add('C15','hunt-header-key-case',MA,"		acceptKey: strings.ToLower(key), // mime.ParseMediaType è¿”å›çš„å‚æ•°åç§°å‡ä¸ºå°å†™","		acceptKey: key,",'violation:C15.R7')
 
+# ---------------- round 5
+addm('C10','r5-adjacency-from-segment',[(SY,"		lastFlag = s[len(s)-1] == endByte\n","\n"),(SY,"		segs = append(segs, seg)\n	}","		segs = append(segs, seg)\n		lastFlag = seg.Endpoint\n	}")],'violation:C10.R15')
+add('C12','r5-recovery-wipes-headers',RO,"				r.recoverFunc(w, err)","				clear(w.Header())\n				r.recoverFunc(w, err)",'violation:C12.R13')
+add('C13','r5-lookup-resets-params',TR,"		return nil, tree.notFound, false","		ctx.Reset()\n		return nil, tree.notFound, false",'violation:C13.R13')
+
 for pid,entries in C.items():
     os.makedirs(os.path.join(base,pid),exist_ok=True)
     json.dump(entries,open(os.path.join(base,pid,'entries.json'),'w'),indent=1,ensure_ascii=False)
